@@ -21,6 +21,7 @@ RULE = (
 ASSUMPTIONS = [
     "the storage module reads the time through its module-level `datetime` name, which the harness replaces (self-check: after commit() the storage's last_commit equals the virtual now; one real-time trace per run)",
     "'about ten seconds' is checked with 1 s slack: a write issued > 11 s after the previous flush must be durable when it returns",
+    "single-event writes must themselves be durable at return (age measured from the flush known when the operation was called); for multi-event operations (bulk, mixed upsert+insert) a flush during the operation counts as the previous flush for the elementary writes that follow it -- the unchanged tree flushes after the first upsert of such a batch and leaves the rest (0 s old) buffered, which the statement does not clearly forbid",
 ]
 
 
